@@ -14,12 +14,6 @@ translator found (`Generated.lyjsonExpLeadingZeroFixed = false`), with the witne
 namespace LyModel.Props.C05
 open LyModel LyModel.JsonNum
 
-/-- the byte behind the number text does not continue it -/
-def Stops (rest : Bytes) : Bool :=
-  match rest with
-  | [] => true
-  | c :: _ => !isDigit c && c != 46 && c != 101 && c != 69
-
 /-- the full-strength statement -/
 def JsonNumberValue : Prop :=
   ∀ (t : NumText) (rest : Bytes), t.wf = true → Stops rest = true →
